@@ -1256,50 +1256,305 @@ Proof.
   apply in_map. apply aget_in. unfold implied. apply aget_aset_same.
 Qed.
 
-(* model state versus monitor state *)
-Definition corr (sm : pstate) (st : mstate_t) : Prop :=
-  match sm, st with
-  | None, None => True
-  | Some (self, mem), Some (self', listing, seen) =>
-      self = self' /\
-      (forallb conform_evb seen = true -> rel self mem (fold_left sstep seen (listed listing)))
-  | _, _ => False
-  end.
-
+(* ================================================================== self state changes *)
 Lemma rel_implied self listing seen mem :
   rel self mem (fold_left sstep seen (listed listing)) -> mem = implied self listing seen.
 Proof.
   intro R. unfold implied. apply rel_eq; [exact R|]. apply fold_sstep_sorted. apply listed_sorted.
 Qed.
 
+Lemma with_state_id n : with_state n (nstate n) = n.
+Proof. destruct n. reflexivity. Qed.
+
+Lemma rel_set_state self mem m0 s :
+  rel self mem m0 -> rel (with_state self s) (set_self_state self s mem) m0.
+Proof.
+  intros [Rs Ro Rk Rsd]. unfold set_self_state. rewrite Rs, Z.eqb_refl.
+  constructor; simpl.
+  - apply aget_aset_same.
+  - intros k Hk. rewrite aget_aset_other by exact Hk. apply Ro. exact Hk.
+  - intros k nd. rewrite aget_aset.
+    destruct (Z.eqb_spec k (nid self)) as [E|N]; [intro H; inv H; reflexivity | apply Rk].
+  - apply sorted_aset. exact Rsd.
+Qed.
+
+Lemma hist_rel h : forall self mem m0,
+  rel self mem m0 -> Forall conform_ev (events_of h) ->
+  rel (fst (fold_left hstep h (self, mem))) (snd (fold_left hstep h (self, mem)))
+      (fold_left sstep (events_of h) m0) /\
+  fst (fold_left hstep h (self, mem)) = current_self self h.
+Proof.
+  induction h as [|x r IH]; intros self mem m0 R F; [simpl; auto|].
+  destruct x as [b|s|]; simpl in F |- *.
+  - apply Forall_app in F. destruct F as [Fb Fr]. rewrite fold_left_app.
+    apply IH; [apply step_batch_rel; assumption | exact Fr].
+  - apply IH; [apply rel_set_state; exact R | exact F].
+  - apply IH; assumption.
+Qed.
+
+Theorem fold_hist_eq self listing h :
+  Forall conform_ev (events_of h) ->
+  fold_hist self listing h =
+  (current_self self h, implied (current_self self h) listing (events_of h)).
+Proof.
+  intro F. unfold fold_hist.
+  destruct (hist_rel h self _ _ (init_rel self listing) F) as [R E].
+  rewrite (surjective_pairing (fold_left hstep h (self, init_members self listing))).
+  rewrite <- E. f_equal. apply rel_implied. exact R.
+Qed.
+
+(* the state the node set last *)
+Definition last_state_from (st : Z) (h : list hop) : Z :=
+  fold_left (fun st x => match x with HSelf s => s | _ => st end) h st.
+
+Lemma current_self_eq h : forall self,
+  current_self self h = with_state self (last_state_from (nstate self) h).
+Proof.
+  induction h as [|x r IH]; intro self; simpl.
+  - symmetry. apply with_state_id.
+  - destruct x as [b|s|]; apply IH.
+Qed.
+
+Theorem self_state_current self listing h :
+  Forall conform_ev (events_of h) ->
+  In (Mb (nid self) (last_state_from (nstate self) h) (naddr self) (nsvcs self))
+     (publish (snd (fold_hist self listing h))).
+Proof.
+  intro F. rewrite (fold_hist_eq self listing h F). simpl.
+  change (Mb (nid self) (last_state_from (nstate self) h) (naddr self) (nsvcs self))
+    with (member_of (with_state self (last_state_from (nstate self) h))).
+  rewrite <- current_self_eq. unfold publish.
+  change (member_of (current_self self h))
+    with ((fun kn : Z * node => member_of (snd kn)) (nid (current_self self h), current_self self h)).
+  apply in_map. apply aget_in. unfold implied. apply aget_aset_same.
+Qed.
+
+(* ================================================================== the other getters *)
+Lemma lst_types ms t : lst (ix_types (make_members ms)) t = spec_list ms t.
+Proof.
+  pose proof (type_lists ms t) as H. unfold get_list in H. unfold lst. rewrite H.
+  destruct (spec_list ms t); reflexivity.
+Qed.
+
+Lemma lst_working ms t : lst (ix_working (make_members ms)) t = spec_work ms t.
+Proof.
+  pose proof (working_lists ms t) as H. unfold get_work in H. unfold lst. rewrite H.
+  destruct (spec_work ms t); reflexivity.
+Qed.
+
+Theorem first_service ms t :
+  get_first (make_members ms) t = first_of (spec_list ms t) /\
+  get_first_work (make_members ms) t = first_of (spec_work ms t).
+Proof. unfold get_first, get_first_work. rewrite lst_types, lst_working. auto. Qed.
+
+Theorem pick_member ms t i it :
+  (pick (make_members ms) t i = Some it -> In it (spec_list ms t)) /\
+  (pick_work (make_members ms) t i = Some it -> In it (spec_work ms t)).
+Proof.
+  unfold pick, pick_work. rewrite lst_types, lst_working.
+  split; intro H; eapply nth_error_In; exact H.
+Qed.
+
+Theorem pick_total ms t :
+  (spec_list ms t <> [] -> exists it, pick (make_members ms) t 0 = Some it) /\
+  (spec_list ms t = [] -> forall i, pick (make_members ms) t i = None).
+Proof.
+  unfold pick. rewrite lst_types. split.
+  - destruct (spec_list ms t) as [|it r]; [intro N; contradiction | intros _; simpl; eauto].
+  - intros E i. rewrite E. destruct i; reflexivity.
+Qed.
+
+Theorem service_pid_unique ms n t it :
+  unique_name ms n -> In it (spec_list ms t) -> iname it = n ->
+  get_pid (make_members ms) n = ipid it /\
+  get_work_pid (make_members ms) n = (if is_work (istate it) then ipid it else None).
+Proof.
+  intros U I E. unfold get_pid, get_work_pid. rewrite (service_unique ms n t it U I E). auto.
+Qed.
+
+Lemma item_eqb_refl it : item_eqb it it = true.
+Proof. apply item_eqb_spec. reflexivity. Qed.
+
+Lemma opt_z_eqb_refl p : opt_z_eqb p p = true.
+Proof. apply (option_eqb_spec Z.eqb Z.eqb_eq). reflexivity. Qed.
+
+Lemma opt_item_eqb_refl p : opt_item_eqb p p = true.
+Proof. apply (option_eqb_spec item_eqb item_eqb_spec). reflexivity. Qed.
+
+Lemma flat_map_nil {A B} (f : A -> list B) l : (forall x, In x l -> f x = []) -> flat_map f l = [].
+Proof.
+  induction l as [|x r IH]; intro H; simpl; [reflexivity|].
+  rewrite (H x) by (left; reflexivity). apply IH. intros y I. apply H. right. exact I.
+Qed.
+
+(* what GetService answers is one of the candidates; no candidates iff it answers nil *)
+Lemma service_cands ms n :
+  match get_service (make_members ms) n with
+  | Some it => In it (cands (types_of ms) (spec_list ms) n)
+  | None => cands (types_of ms) (spec_list ms) n = []
+  end.
+Proof.
+  pose proof (service_admissible ms n) as A.
+  destruct (get_service (make_members ms) n) as [it|]; simpl in A.
+  - destruct A as [t F]. unfold cands. apply in_flat_map. exists t. split.
+    + apply zcount_In. rewrite <- type_list_length.
+      apply find_some in F. destruct F as [I _]. destruct (spec_list ms t); [contradiction | simpl; lia].
+    + rewrite F. left. reflexivity.
+  - unfold cands. apply flat_map_nil. intros t _.
+    destruct (find (named n) (spec_list ms t)) as [it|] eqn:F; [|reflexivity].
+    apply find_some in F. destruct F as [I N]. unfold named in N. apply Z.eqb_eq in N.
+    exfalso. exact (A t it I N).
+Qed.
+
+Section ExtSound.
+  Variables (tys : list Z) (L W : Z -> list item) (ix : index).
+  Hypothesis HL : forall t, lst (ix_types ix) t = L t.
+  Hypothesis HW : forall t, lst (ix_working ix) t = W t.
+  Hypothesis Hadm : forall n, match get_service ix n with
+                              | Some it => In it (cands tys L n)
+                              | None => cands tys L n = []
+                              end.
+
+  Lemma pick_first_ok l : pick_ok l (first_of l) = true.
+  Proof. destruct l as [|it r]; simpl; [reflexivity|]. rewrite item_eqb_refl. reflexivity. Qed.
+
+  Lemma pick_pid_first_ok l : pick_pid_ok l (pid_of (first_of l)) = true.
+  Proof. destruct l as [|it r]; simpl; [reflexivity|]. rewrite opt_z_eqb_refl. reflexivity. Qed.
+
+  Lemma pick_name_first_ok l : pick_name_ok l (name_of (first_of l)) = true.
+  Proof. destruct l as [|it r]; simpl; [reflexivity|]. unfold named. rewrite Z.eqb_refl. reflexivity. Qed.
+
+  Lemma lookup_sound (f : option item -> option Z) n :
+    f None = None -> lookup_ok tys L f n (f (get_service ix n)) = true.
+  Proof.
+    intro Fn. unfold lookup_ok. specialize (Hadm n).
+    destruct (get_service ix n) as [it|].
+    - destruct (cands tys L n) as [|c cs] eqn:E; [contradiction|].
+      rewrite <- E. apply existsb_exists. exists it. split; [rewrite E; exact Hadm | apply opt_z_eqb_refl].
+    - rewrite Hadm, Fn. reflexivity.
+  Qed.
+
+  Lemma ext_sound : ext_ok tys L W (ext_of ix) = true.
+  Proof.
+    unfold ext_ok, ext_of. rewrite !andb_true_iff.
+    repeat match goal with |- _ /\ _ => split end.
+    - rewrite map_map. reflexivity.
+    - apply forallb_forall. intros x I. apply in_map_iff in I. destruct I as [t [E _]]. subst x.
+      unfold qt_ok, get_first, get_first_work. rewrite HL, HW.
+      rewrite !opt_item_eqb_refl, !opt_z_eqb_refl, !pick_first_ok, !pick_pid_first_ok, !pick_name_first_ok.
+      reflexivity.
+    - rewrite map_map. reflexivity.
+    - apply forallb_forall. intros x I. apply in_map_iff in I. destruct I as [n [E _]]. subst x.
+      unfold qn_ok, get_pid, get_work_pid.
+      rewrite (lookup_sound pid_of n eq_refl), (lookup_sound work_pid_of n eq_refl). reflexivity.
+  Qed.
+End ExtSound.
+
+Theorem ext_spec_sound ms : ext_ok_spec ms (ext_of (make_members ms)) = true.
+Proof.
+  unfold ext_ok_spec. apply ext_sound.
+  - apply lst_types.
+  - apply lst_working.
+  - apply service_cands.
+Qed.
+
+(* ================================================================== the trace monitor *)
+Lemma node_eqb_spec a b : node_eqb a b = true <-> a = b.
+Proof.
+  destruct a as [i al s ad sv], b as [i' al' s' ad' sv']. unfold node_eqb. simpl.
+  rewrite !andb_true_iff, !Z.eqb_eq, Bool.eqb_true_iff, (list_eqb_spec svc_eqb svc_eqb_spec).
+  split; [intros [[[[-> ->] ->] ->] ->]; reflexivity | intro H; inv H; auto 6].
+Qed.
+
+Lemma node_eqb_refl n : node_eqb n n = true.
+Proof. apply node_eqb_spec. reflexivity. Qed.
+
+Lemma reg_ok_refl n : nalive n = true -> reg_ok n (nid n) n = true.
+Proof. intro A. unfold reg_ok. rewrite Z.eqb_refl, node_eqb_refl, A. reflexivity. Qed.
+
+(* model state versus monitor state *)
+Definition corr (sm : pstate) (st : mstate_t) : Prop :=
+  snd sm = snd st /\
+  match fst sm, fst st with
+  | None, None => True
+  | Some p, Some m =>
+      p_self p = m_self m /\ p_watches p = m_watches m /\ p_err p = m_err m /\
+      nalive (p_self p) = true /\
+      (forallb conform_evb (m_seen m) = true ->
+       rel (p_self p) (p_mem p) (fold_left sstep (m_seen m) (listed (m_listing m))))
+  | _, _ => False
+  end.
+
 Lemma monitor_run ops : forall sm st, corr sm st -> monitor_from st ops (run_from sm ops) = true.
 Proof.
-  induction ops as [|o r IH]; intros sm st C; [reflexivity|].
-  destruct o as [self listing|b|a b].
+  induction ops as [|o r IH]; intros [pv dir] [mp dir'] [Cd C]; [reflexivity|].
+  simpl in Cd, C. subst dir'.
+  destruct o as [self listing|b|st0|v0|v| | |n|id addr svcs|a b].
   - (* OStart *)
-    simpl. unfold pub_obs. apply andb_true_iff. split.
-    + apply pub_ok_sound. intros _. apply rel_implied. simpl. apply init_rel.
-    + apply IH. simpl. split; [reflexivity|]. intros _. apply init_rel.
+    simpl. destruct (if Z.ltb (naddr self) (-1) then None else listing_nodes listing) as [nodes|].
+    + unfold pub_of. simpl. rewrite !andb_true_iff.
+      repeat match goal with |- _ /\ _ => split end; try reflexivity.
+      * apply (reg_ok_refl (mk_self self)). reflexivity.
+      * apply (reg_ok_refl (mk_self self)). reflexivity.
+      * apply pub_ok_sound. intros _. apply rel_implied. simpl. apply init_rel.
+      * apply IH. split; [reflexivity|]. simpl.
+        do 4 (split; [reflexivity|]). intros _. apply init_rel.
+    + apply IH. split; [reflexivity | exact I].
   - (* OBatch *)
-    destruct sm as [[self mem]|], st as [[[self' listing] seen]|]; simpl in C; try contradiction.
-    + destruct C as [E C]. subst self'. simpl.
-      destruct (is_nil b) eqn:Nb.
-      * simpl. apply IH. simpl. auto.
-      * unfold pub_obs. apply andb_true_iff.
-        assert (R : forallb conform_evb (seen ++ b) = true ->
-                    rel self (step_batch self mem b) (fold_left sstep (seen ++ b) (listed listing))).
+    destruct pv as [p|], mp as [m|]; simpl in C; try contradiction.
+    + destruct C as [Es [Ew [Ee [Al C]]]]. simpl. destruct (is_nil b) eqn:Nb.
+      * simpl. apply IH. split; [reflexivity|]. simpl. auto.
+      * unfold pub_of. simpl. apply andb_true_iff.
+        assert (R : forallb conform_evb (m_seen m ++ b) = true ->
+                    rel (p_self p) (step_batch (p_self p) (p_mem p) b)
+                        (fold_left sstep (m_seen m ++ b) (listed (m_listing m)))).
         { intro F. rewrite forallb_app in F. apply andb_true_iff in F. destruct F as [F1 F2].
           rewrite fold_left_app. apply step_batch_rel; [apply C; exact F1 | apply conform_all_spec; exact F2]. }
         split.
-        -- apply pub_ok_sound. intro F. apply rel_implied. apply R. exact F.
-        -- apply IH. simpl. auto.
-    + simpl. apply IH. exact I.
+        -- rewrite <- Es. apply pub_ok_sound. intro F. apply rel_implied. apply R. exact F.
+        -- apply IH. split; [reflexivity|]. simpl. auto.
+    + simpl. apply IH. split; [reflexivity | exact I].
+  - (* OSelfState *)
+    destruct pv as [p|], mp as [m|]; simpl in C; try contradiction.
+    + destruct C as [Es [Ew [Ee [Al C]]]]. simpl. apply andb_true_iff. split.
+      * rewrite <- Es. apply (reg_ok_refl (with_state (p_self p) st0)). exact Al.
+      * apply IH. split; [reflexivity|]. simpl. rewrite <- Es.
+        split; [reflexivity|]. split; [exact Ew|]. split; [exact Ee|]. split; [exact Al|].
+        intro F. apply rel_set_state. apply C. exact F.
+    + simpl. apply IH. split; [reflexivity | exact I].
+  - (* OLeaseLost *)
+    destruct pv as [p|], mp as [m|]; simpl in C; try contradiction.
+    + pose proof C as [Es [Ew [Ee [Al C']]]]. simpl. apply andb_true_iff. split.
+      * rewrite <- Es. apply reg_ok_refl. exact Al.
+      * apply IH. split; [reflexivity | exact C].
+    + simpl. apply IH. split; [reflexivity | exact I].
+  - (* ORewatch *)
+    destruct pv as [p|], mp as [m|]; simpl in C; try contradiction.
+    + destruct C as [Es [Ew [Ee [Al C]]]]. simpl. rewrite <- Ew, <- Ee, Z.eqb_refl, Bool.eqb_reflx. simpl.
+      apply IH. split; [reflexivity|]. simpl. auto.
+    + simpl. apply IH. split; [reflexivity | exact I].
+  - (* OShutdown *)
+    destruct pv as [p|], mp as [m|]; simpl in C; try contradiction.
+    + destruct C as [Es _]. simpl. rewrite <- Es, Z.eqb_refl. simpl.
+      apply IH. split; [reflexivity | exact I].
+    + simpl. apply IH. split; [reflexivity | exact I].
+  - (* OQuery *)
+    cbn [run_from step_op monitor_from]. apply andb_true_iff. split; [apply ext_spec_sound|].
+    apply IH. split; [reflexivity | exact C].
+  - (* ONode *)
+    cbn [run_from step_op monitor_from]. rewrite node_eqb_refl. simpl.
+    apply IH. split; [reflexivity | exact C].
+  - (* OSelfCluster *)
+    cbn [run_from step_op monitor_from]. rewrite !andb_true_iff. split; [split|].
+    + cbn [list_eqb]. rewrite (proj2 (member_eqb_spec _ _) eq_refl). reflexivity.
+    + apply index_ok_sound.
+    + apply IH. split; [reflexivity | exact C].
   - (* OStress *)
-    simpl. apply IH. exact C.
+    simpl. apply IH. split; [reflexivity | exact C].
 Qed.
 
-Theorem monitor_sound ops : monitor_from None ops (run ops) = true.
-Proof. apply monitor_run. exact I. Qed.
+Theorem monitor_sound ops : monitor_from (None, []) ops (run ops) = true.
+Proof. apply monitor_run. split; [reflexivity | exact I]. Qed.
 
 (* the comparison used by the correspondence accepts the model's own run *)
 From Cell2V Require Import C08.Corr.
@@ -1328,18 +1583,57 @@ Proof.
   - apply perm_eqb_refl.
 Qed.
 
-Lemma agree_run ops : forall s, agree_from s ops (run_from s ops) = true.
+Lemma cands_ext tys (L L' : Z -> list item) n : (forall t, L t = L' t) -> cands tys L n = cands tys L' n.
+Proof.
+  intro H. unfold cands. induction tys as [|t r IH]; simpl; [reflexivity|]. rewrite H, IH. reflexivity.
+Qed.
+
+Lemma ext_agree_refl dir : ext_agree dir (ext_of (make_members dir)) = true.
+Proof.
+  unfold ext_agree. apply ext_sound; try reflexivity.
+  intro n. rewrite (cands_ext (types_of dir) _ (spec_list dir) n (lst_types dir)).
+  apply service_cands.
+Qed.
+
+Lemma regs_eqb_refl l : regs_eqb l l = true.
+Proof.
+  apply list_eqb_spec; [|reflexivity].
+  apply pair_eqb_spec; [apply Z.eqb_eq | apply node_eqb_spec].
+Qed.
+
+Lemma agree_run ops : forall s, agree_from s (snd s) ops (run_from s ops) = true.
 Proof.
   induction ops as [|o r IH]; intro s; [reflexivity|].
   simpl. destruct (step_op s o) as [s1 b] eqn:E. simpl.
-  apply andb_true_iff. split; [|apply IH].
-  destruct o as [self listing|bt|a b']; simpl in E.
-  - inv E. unfold pub_obs. simpl. rewrite perm_eqb_refl. apply answers_agree_refl.
-  - destruct s as [[self mem]|]; [|inv E; reflexivity].
-    destruct (is_nil bt); inv E; [reflexivity|].
-    unfold pub_obs. simpl. rewrite perm_eqb_refl. apply answers_agree_refl.
-  - inv E. reflexivity.
+  assert (H : obs_agree (snd s) b b = true /\ impl_dir (snd s) b = snd s1).
+  { destruct s as [pv dir]. cbn [snd].
+    destruct o as [self listing|bt|st0|v0|v| | |n|id addr svcs|a b']; cbn [step_op] in E.
+    - destruct (if Z.ltb (naddr self) (-1) then None else listing_nodes listing).
+      + unfold pub_of in E. inv E. cbn [obs_agree impl_dir snd].
+        rewrite regs_eqb_refl, perm_eqb_refl, answers_agree_refl. auto.
+      + inv E. auto.
+    - destruct pv as [p|]; [|inv E; auto].
+      destruct (is_nil bt); [inv E; auto|].
+      unfold pub_of in E. inv E. cbn [obs_agree impl_dir snd].
+      rewrite perm_eqb_refl, answers_agree_refl. auto.
+    - destruct pv as [p|]; inv E; cbn [obs_agree impl_dir snd]; [|auto].
+      rewrite Z.eqb_refl, node_eqb_refl. auto.
+    - destruct pv as [p|]; inv E; cbn [obs_agree impl_dir snd]; [|auto].
+      rewrite Z.eqb_refl, node_eqb_refl. auto.
+    - destruct pv as [p|]; inv E; cbn [obs_agree impl_dir snd]; [|auto].
+      rewrite Z.eqb_refl, Bool.eqb_reflx. auto.
+    - destruct pv as [p|]; inv E; cbn [obs_agree impl_dir snd]; [|auto].
+      rewrite Z.eqb_refl. auto.
+    - inv E. cbn [obs_agree impl_dir snd]. rewrite ext_agree_refl. auto.
+    - inv E. cbn [obs_agree impl_dir snd]. rewrite node_eqb_refl. auto.
+    - inv E. cbn [obs_agree impl_dir snd]. rewrite perm_eqb_refl, answers_agree_refl. auto.
+    - inv E. auto. }
+  destruct H as [H1 H2]. rewrite H1, H2. apply IH.
 Qed.
 
 Theorem agree_sound ops : agree (ops, run ops) = true.
-Proof. apply agree_run. Qed.
+Proof. apply (agree_run ops init_state). Qed.
+
+(* what the node registers for itself satisfies the conformance guard of the fold theorems *)
+Theorem registration_conforms self s : conform_ev (EPut (nid self) (with_state (mk_self self) s)).
+Proof. simpl. auto. Qed.
